@@ -4,7 +4,8 @@
 //! unique sequence number and a *plan* byte that makes one of the four codec calls fail, hang or work on
 //! either side; short `request_timeout`; PRNG interleaving of send_request (connected peers, peers that
 //! must be dialed first, unreachable peers), send_response / dropping the channel (immediately or later),
-//! connection closes and scheduler steps. At the end everything outstanding is answered or dropped and the
+//! connection closes, injected substream faults (an outbound substream that breaks with an I/O error while its
+//! protocol is negotiated, connection surviving) and scheduler steps. At the end everything outstanding is answered or dropped and the
 //! net settles (timer wake-ups included).
 //!
 //! Oracle over each node's behaviour event stream: every OutboundRequestId returned by send_request has
@@ -117,7 +118,7 @@ pub fn run(args: &Args) -> i32 {
         "exploration",
         "PRNG histories over 2-3 real request-response swarms with a scripted codec (9 plans: each codec call failing or hanging on either \
          side), request_timeout 60 ms, requests to connected / to-be-dialed / unreachable peers, responses sent, delayed or dropped, connection \
-         closes; non-trivial = history with >= 1 Response, >= 1 OutboundFailure and >= 1 InboundFailure or ResponseSent; distinct by op sequence",
+         closes, injected I/O errors during outbound stream negotiation; non-trivial = history with >= 1 Response, >= 1 OutboundFailure and >= 1 InboundFailure or ResponseSent; distinct by op sequence",
     );
     let cases = args.tier.pick(400u64, 30_000);
     let only: Option<u64> = args.extra.get("case").and_then(|s| s.parse().ok());
@@ -193,7 +194,7 @@ pub fn run(args: &Args) -> i32 {
         let mut used_hang = false;
         for _ in 0..rng.range(6, 30) {
             let i = rng.usize(n);
-            let op = rng.weighted(&[30, 25, 6, 4, 35]);
+            let op = rng.weighted(&[30, 25, 6, 4, 35, 6]);
             sig.push_u64(op as u64);
             match op {
                 0 => {
@@ -236,10 +237,20 @@ pub fn run(args: &Args) -> i32 {
                     let _ = net.swarm(i).disconnect_peer_id(peers[j]);
                     net.touch(i);
                 }
+                5 => {
+                    // fault injection: the next 1-2 outbound substreams node i opens break with an I/O error on first
+                    // use, i.e. while the protocol is being negotiated; the connection itself survives
+                    let k = 1 + rng.usize(2) as u32;
+                    logs[i].events.push(format!("[fault] next {k} outbound substream(s) of this node break during negotiation"));
+                    net.board.fail_next_outbound_streams(i, k);
+                }
                 _ => {
                     net.run(rng.range(1, 120), sink!());
                 }
             }
+        }
+        for i in 0..n {
+            net.board.fail_next_outbound_streams(i, 0);
         }
         // wind down: answer or drop everything that is held (new requests may still arrive), then settle
         let idle = Duration::from_millis(if used_hang { 400 } else { 150 });
@@ -312,6 +323,7 @@ pub fn run(args: &Args) -> i32 {
         check.count("outbound_failures", out_fail);
         check.count("inbound_outcomes", in_term);
         check.count("histories_with_hanging_codec", used_hang as u64);
+        check.count("substream_faults_injected", net.board.with(|b| b.stream_faults_injected));
         let mut kinds: BTreeMap<String, u64> = BTreeMap::new();
         for l in &logs {
             for v in l.out_terminal.values().chain(l.in_terminal.values()) {
